@@ -4,7 +4,7 @@ From Coq Require Import Ascii String.
 From Coq Require Import List Arith Bool NArith Lia.
 Import ListNotations.
 Require Import Laze.model.Base Laze.model.Env Laze.model.Allow Laze.model.Ctx Laze.model.Load.
-Require Import Laze.proofs.BaseFacts Laze.proofs.CacheNarrow Laze.proofs.LoadFrame.
+Require Import Laze.proofs.WorkList Laze.proofs.BaseFacts Laze.proofs.CacheNarrow Laze.proofs.LoadFrame.
 Open Scope list_scope.
 
 Lemma set_ctx_names (b : bag) i c c0 :
@@ -114,13 +114,13 @@ Proof.
   unfold add_modules. intros HF.
   apply (fold_rbind_inv (fun x => bag_names x = bag_names b)
            (fun b0 y => fold_left (fun acc c => rbind acc (fun b1 =>
-                          rbind (convert_module bd y c is_binary (ld_file d) defaults) (add_module b1)))
+                          rbind (convert_module bd y c is_binary (ld_file d) (ld_root d) defaults) (add_module b1)))
                           (contexts_of (ym_context y)) (Ok b0))) with (l := mods) (acc := Ok b); [|intros a E; injection E as <-; reflexivity|exact HF].
   intros a y a' Ha HF2.
   apply (fold_rbind_inv (fun x => bag_names x = bag_names b)
-           (fun b1 c => rbind (convert_module bd y c is_binary (ld_file d) defaults) (add_module b1)))
+           (fun b1 c => rbind (convert_module bd y c is_binary (ld_file d) (ld_root d) defaults) (add_module b1)))
     with (l := contexts_of (ym_context y)) (acc := Ok a); [|intros a0 E; injection E as <-; exact Ha|exact HF2].
-  intros a0 c a1 Ha0 E. destruct (convert_module bd y c is_binary (ld_file d) defaults) as [m| | |]; cbn [rbind] in E; try discriminate.
+  intros a0 c a1 Ha0 E. destruct (convert_module bd y c is_binary (ld_file d) (ld_root d) defaults) as [m| | |]; cbn [rbind] in E; try discriminate.
   rewrite (add_module_names _ _ _ E). exact Ha0.
 Qed.
 
@@ -128,7 +128,7 @@ Qed.
 Theorem load_names_distinct t pf bd b : load t pf bd = Ok b -> ctx_names_ok b.
 Proof.
   unfold load, ctx_names_ok. intros HL.
-  destruct (load_files _ t [(pf, None)] 0 []) as [[docs fs]| | |]; cbn [rbind] in HL; try discriminate.
+  destruct (load_files _ t [(pf, (None, None))] 0 []) as [[docs fs]| | |]; cbn [rbind] in HL; try discriminate.
   (* phase 1: contexts and builders of all documents *)
   match type of HL with rbind ?X _ = _ => destruct X as [[b0 cms]| | |] eqn:E1 end; cbn [rbind] in HL; try discriminate.
   assert (ND0 : NoDup (bag_names b0)).
@@ -141,7 +141,7 @@ Proof.
     refine (fold_rbind_inv (fun p : bag * list module => NoDup (bag_names (fst p))) _ _ _ (Ok (bb, cmsb)) (bb', cmsb') _ Hlb);
       [|intros a E; injection E as <-; exact Hb].
     intros [bc cmsc] y [bc' cmsc'] Hc Hy. cbn [fst] in *.
-    destruct (convert_context y (snd lb || yc_is_builder y) (ld_file d)) as [[c m]| | |]; cbn [rbind] in Hy; try discriminate.
+    destruct (convert_context y (snd lb || yc_is_builder y) (ld_file d) (ld_root d)) as [[c m]| | |]; cbn [rbind] in Hy; try discriminate.
     destruct (add_context bc c) as [bn| | |] eqn:Ea; cbn [rbind] in Hy; try discriminate.
     injection Hy as <- _. exact (add_context_nodup _ _ _ Hc Ea). }
   destruct (finalize b0) as [b1| | |] eqn:Ef; cbn [rbind] in HL; try discriminate.
